@@ -25,7 +25,7 @@ CHECKS = {
                 note="Trusted: Framing.tla/AtomicFraming as reference; event rendering through the library's own Serialize for the real-vs-real comparison; TLC.",
                 tech="TLA+ Framing spec + TLC refinement check; replay of every explored chunking into the real code; TLC trace validation; real-vs-real bisimulation"),
 }
-for pid in ():
+for pid in ("C05", "C06", "C07", "C08", "C10", "C11", "C12", "C13", "C14", "C15", "C16", "C17", "C19"):
     CHECKS[pid] = dict(cat="model_checking", design="DESIGN.md section 4, %s" % pid, text=EP_TEXT, note=EP_NOTE, tech=EP_TECH)
 
 ENGINE_PROPS = sorted(CHECKS)
